@@ -725,7 +725,7 @@ def run(ctx):
     import dask.array  # noqa: F401 - imported before the worker processes are forked
     shapes = ctx.pick([(4,), (2, 3), (3, 2)], [(3,), (4,), (2, 3), (3, 2), (2, 2), (1, 4), (4, 2)])
     zshapes = ctx.pick([(3,), (2, 2)], [(3,), (2, 3), (3, 2)])
-    mods = ctx.pick({"mb": 30, "bw": 3, "gu": 1}, {"mb": 6, "bw": 1, "gu": 1})
+    mods = ctx.pick({"mb": 30, "bw": 3, "gu": 1}, {"mb": 8, "bw": 1, "gu": 1})
     total = 0
     xval = []
     for fam in ("mb", "bw", "gu"):
